@@ -231,7 +231,7 @@ func runC10R2(c *Ctx, r *Rep) {
 
 // process-exit calls that implement Python's own exit functions
 var sanctionedExit = map[string]string{
-	"stdlib/os._exit":   "os._exit(n) is defined to terminate the process immediately",
+	"stdlib/os._exit":     "os._exit(n) is defined to terminate the process immediately",
 	"stdlib/sys.sys_exit": "",
 }
 
